@@ -26,28 +26,83 @@ var solverBins = []struct{ name, bin string }{
 	{"cvc5", "cvc5"},
 }
 
+// cpuSeconds reads the CPU time (user+system) a process has consumed so far from /proc.
+func cpuSeconds(pid int) (float64, bool) {
+	b, err := os.ReadFile(fmt.Sprintf("/proc/%d/stat", pid))
+	if err != nil {
+		return 0, false
+	}
+	s := string(b)
+	i := strings.LastIndexByte(s, ')')
+	if i < 0 {
+		return 0, false
+	}
+	f := strings.Fields(s[i+1:])
+	if len(f) < 13 {
+		return 0, false
+	}
+	var ut, st float64
+	fmt.Sscan(f[11], &ut)
+	fmt.Sscan(f[12], &st)
+	return (ut + st) / 100.0, true
+}
+
+// runSolver runs one solver on one query file. The budget is CPU time of the solver process, not
+// wall-clock time: a verdict must not depend on how busy the machine is (a loaded machine makes
+// the run slower, not the obligation "undecided"). A generous wall-clock backstop (10x + 20 s)
+// only guards against a solver that sleeps.
 func runSolver(ctx context.Context, name, bin, file string, timeout time.Duration, wantModel bool) SolveResult {
 	start := time.Now()
+	backstop := 10*timeout + 20*time.Second
 	var args []string
 	switch name {
 	case "cvc5":
-		args = []string{"--tlimit=" + fmt.Sprint(int(timeout.Milliseconds())), "--lang=smt2", file}
+		args = []string{"--lang=smt2", file}
 		if wantModel {
 			args = append([]string{"--produce-models"}, args...)
 		}
 	default:
-		args = []string{"-T:" + fmt.Sprint(int(timeout.Seconds())+1), "-smt2", file}
+		args = []string{"-smt2", file}
 	}
-	cctx, cancel := context.WithTimeout(ctx, timeout+2*time.Second)
+	cctx, cancel := context.WithTimeout(ctx, backstop)
 	defer cancel()
 	cmd := exec.CommandContext(cctx, bin, args...)
 	var out bytes.Buffer
 	cmd.Stdout = &out
 	cmd.Stderr = &out
-	_ = cmd.Run()
+	cpuOut := false
+	cpu := 0.0
+	if err := cmd.Start(); err == nil {
+		done := make(chan struct{})
+		go func() {
+			tick := time.NewTicker(20 * time.Millisecond)
+			defer tick.Stop()
+			for {
+				select {
+				case <-done:
+					return
+				case <-tick.C:
+					if c, ok := cpuSeconds(cmd.Process.Pid); ok {
+						cpu = c
+						if c > timeout.Seconds() {
+							cpuOut = true
+							_ = cmd.Process.Kill()
+							return
+						}
+					}
+				}
+			}
+		}()
+		_ = cmd.Wait()
+		close(done)
+		if cmd.ProcessState != nil {
+			cpu = (cmd.ProcessState.UserTime() + cmd.ProcessState.SystemTime()).Seconds()
+		}
+	}
 	s := out.String()
 	first := strings.TrimSpace(strings.SplitN(s, "\n", 2)[0])
-	res := SolveResult{Solver: name, Seconds: time.Since(start).Seconds(), Raw: s}
+	_ = start
+	res := SolveResult{Solver: name, Seconds: cpu, Raw: s}
 	switch {
 	case strings.Contains(s, "(error ") && !strings.Contains(s, "model is not available"):
 		res.Status = "error"
@@ -60,7 +115,7 @@ func runSolver(ctx context.Context, name, bin, file string, timeout time.Duratio
 		}
 	case first == "unknown":
 		res.Status = "unknown"
-	case strings.Contains(first, "timeout") || cctx.Err() != nil:
+	case cpuOut || strings.Contains(first, "timeout") || cctx.Err() != nil:
 		res.Status = "timeout"
 	default:
 		res.Status = "error"
